@@ -15,7 +15,7 @@
 
    No proofs in this file. *)
 From Coq Require Import List String ZArith Bool Arith DecimalString.
-Require Import OV.Graph.Syntax OV.Graph.Names OV.Rewrite.Apply OV.Rewrite.FnCall.
+Require Import OV.Graph.Syntax OV.Graph.Sem OV.Graph.Names OV.Rewrite.Apply OV.Rewrite.FnCall.
 Import ListNotations.
 Local Open Scope string_scope.
 Local Open Scope list_scope.
@@ -231,6 +231,25 @@ Definition rename_ins (cmap : list (vname * vname)) (n : node) : node :=
 Definition fn_body (cmap : list (vname * vname)) (cattrs : list (list (string * attrv))) (matched : list node) : list node :=
   map (fun ca => Node "" "Constant" [] [snd (fst ca)] (snd ca) []) (combine cmap cattrs) ++ map (rename_ins cmap) matched.
 
+(* the Constant nodes at the head of the body, and the executable side conditions of the theorem
+   C07_call_with_constants_eq_matched (Rewrite/FnConstSemProofs.v): matched nodes plain, reading only call inputs, copied
+   values and one another; one Constant per copied value; the Constant outputs are new names; a copied value is neither a
+   call input nor defined by the match *)
+Definition const_node (ca : (vname * vname) * list (string * attrv)) : node :=
+  Node "" "Constant" [] [snd (fst ca)] (snd ca) [].
+
+Definition const_nodes (cmap : list (vname * vname)) (cattrs : list (list (string * attrv))) : list node :=
+  map const_node (combine cmap cattrs).
+
+Definition extract_const_okb (dom op : string) (ins : list vname) (cmap : list (vname * vname))
+           (cattrs : list (list (string * attrv))) (M : list node) (outs : list vname) : bool :=
+  forallb plain M && negb (is_if dom op) && negb (is_loop dom op) &&
+  closed_in (ins ++ map fst cmap) M && subset outs (defs_nodes M ++ ins) &&
+  Nat.eqb (List.length cmap) (List.length cattrs) &&
+  nodupb (map fst cmap) && nodupb (map snd cmap) &&
+  disjointb (map fst cmap) (defs_nodes M ++ ins) &&
+  disjointb (map snd cmap) (defs_nodes M ++ ins ++ map fst cmap).
+
 (* ---- one application ------------------------------------------------------------------------------------------------ *)
 Record delta := Delta {
   d_site : nat;                            (* the graph object holding the match *)
@@ -339,7 +358,9 @@ Definition fn_okb (d : delta) (a : app) (s : graph) (ov : option string) (cmap :
              match cmap with
              | [] => extract_okb (n_dom c) (n_op c) (fq_ins q) (sel (a_mask a) (g_nodes s)) (fq_outs q) &&
                      list_eqb (opt_eqb String.eqb) (n_ins c) (map Some (fq_ins q)) && list_eqb String.eqb (n_outs c) (fq_outs q)
-             | _ => true
+             | _ => (* copied constants: the executable hypotheses of C07_call_with_constants_eq_matched *)
+                    extract_const_okb (n_dom c) (n_op c) (fq_ins q) cmap cattrs (sel (a_mask a) (g_nodes s)) (fq_outs q) &&
+                    list_eqb (opt_eqb String.eqb) (n_ins c) (map Some (fq_ins q)) && list_eqb String.eqb (n_outs c) (fq_outs q)
              end
     | _ => false
     end
